@@ -6,9 +6,10 @@
    expect the number of a message it keeps, nor a number beyond the range it is recovering: the stash has been drained and
    recovery ends when the range is covered — the recovery invariant RI, ResendInvProofs.v) and clause 406 (timers leave
    the recovery state alone) never fail on a model trace.  Clause 402 (while recovering, a ResendRequest is created only as
-   the next chunk at the expected number) never fails on a trace whose events do not end disconnected with frames still
-   buffered and in which the application does not itself send a ResendRequest (ChunkProofs.v; both provisos are needed:
-   `_refuted` examples).  Clause 405 (no kept application message dropped) never fails on ANY model trace
+   the next chunk at the expected number; evaluated on events that handle at most one frame, i.e. nothing buffered before the
+   event or still connected after it) never fails on a trace in which the application does not itself send a ResendRequest
+   (ChunkProofs.v; the proviso is needed: `_refuted` example; unconditionally, the clause can fail only at such an event).
+   Clause 405 (no kept application message dropped) never fails on ANY model trace
    (KeptProofs.v; the predicate records a message under its number only when it passes the header checks, so that its record
    of what is kept agrees with the engine's stash — invariant KA).  Clause 407 (while recovering, an early sequence-gated
    message that passes the header checks is kept, nothing requested, expected number unchanged) never fails on a trace with a
@@ -102,27 +103,26 @@ Theorem c04_request_only_as_next_chunk : forall s e stash ce re,
                          /\ field_of 7 (o_body rr) = Some (itoa (s_tgt (step s e)))).
 Proof. exact step_req. Qed.
 
-(* TRACE LEVEL.  For every configuration and every event list such that, along the run, no event starts with frames buffered
-   and ends disconnected (`c04_quiet`: the inbound buffer is empty before the event or the session is still connected after
-   it) and the application never sends a ResendRequest itself, clause 402 of c04_check never fails. *)
-Theorem c04_no_spurious_request_on_quiet_traces : forall c es,
-  quiet_trace es (init_sess c) ->
+(* TRACE LEVEL.  For every configuration and every event list in which the application never sends a ResendRequest itself,
+   clause 402 of c04_check never fails.  (The clause is evaluated on events that handle at most one frame: since the repair of
+   F17 an event that ends disconnected first handles every buffered frame, each of which may legitimately complete a chunk and
+   request the next one.  Buffered frames, deliveries, timers, disconnects are unrestricted.) *)
+Theorem c04_no_spurious_request_on_every_trace : forall c es,
+  Forall c04_no_app_rr es ->
   free_of [402] (c04_check c (combine es (map obs_of (run_trace es (init_sess c))))) = true.
 Proof. exact c04_only_chunk_requests_while_recovering. Qed.
 
-(* ... in particular on every trace in which frames are always processed directly (no EArrive) and the application sends no
-   ResendRequest: a purely syntactic condition on the event list *)
-Theorem c04_no_spurious_request_on_unbuffered_traces : forall c es,
-  Forall c04_plain_event es ->
-  free_of [402] (c04_check c (combine es (map obs_of (run_trace es (init_sess c))))) = true.
-Proof. exact c04_only_chunk_requests_plain. Qed.
+(* UNCONDITIONAL form (every configuration, every event list): a failure of clause 402 at event number j implies that event j
+   is an application-sent ResendRequest. *)
+Theorem c04_spurious_request_only_at_app_resend_requests : forall c es j,
+  In (j, 402) (c04_check c (combine es (map obs_of (run_trace es (init_sess c))))) ->
+  exists t body ok, nth_error es j = Some (EAppSend t body ok) /\ beq_bytes t T_RESENDREQ = true.
+Proof. exact c04_402_only_at_app_resend_requests. Qed.
 
-(* the hypotheses are satisfiable on a trace that does create a chunk request while recovering (gap 2..9, chunk size 2:
+(* the hypothesis is satisfiable on a trace that does create a chunk request while recovering (gap 2..9, chunk size 2:
    request [2,3]; after Heartbeat 3 the next chunk [4,5] is requested) ... *)
-Example c04_quiet_trace_example : quiet_trace c04x_chunk_trace (init_sess (c04x_cfg 2)).
-Proof. exact c04x_chunk_trace_quiet. Qed.
-Example c04_plain_trace_example : Forall c04_plain_event c04x_chunk_trace.
-Proof. exact c04x_chunk_trace_plain. Qed.
+Example c04_no_app_rr_trace_example : Forall c04_no_app_rr c04x_chunk_trace.
+Proof. exact c04x_chunk_trace_no_app_rr. Qed.
 Example c04_chunk_trace_creates_requests :
   map (fun o => (ob_st (snd o), map (fun w => (o_type w, o_body w)) (ob_wire (snd o)))) (c04x_run (c04x_cfg 2) c04x_chunk_trace)
   = [(ShLogon, []);
@@ -131,20 +131,28 @@ Example c04_chunk_trace_creates_requests :
      (ShResend true [10] 3 9, []);
      (ShResend true [10] 5 9, [(T_RESENDREQ, [(7, itoa 4); (16, itoa 5)])])].
 Proof. exact c04x_chunk_trace_requests. Qed.
-(* ... and on a trace with buffered frames that stays connected *)
-Example c04_quiet_buffered_trace_example : quiet_trace c04x_buffered_trace (init_sess (c04x_cfg 2)).
-Proof. exact c04x_buffered_trace_quiet. Qed.
 
-(* REFUTED without the provisos: (a) an application-sent ResendRequest while recovering, nothing ever buffered;
-   (b) drain after disconnect, no application ResendRequest: two chunk requests created in one event. *)
+(* REFUTED without the proviso: an application-sent ResendRequest while recovering (nothing ever buffered) *)
 Theorem c04_no_spurious_request_app_resend_refuted :
   exists c es, Forall (fun e => match e with EArrive _ => False | _ => True end) es
     /\ c04_check c (combine es (map obs_of (run_trace es (init_sess c)))) = [(3%nat, 402)].
 Proof. exact c04_402_app_resend_request_refuted. Qed.
-Theorem c04_no_spurious_request_drain_after_disconnect_refuted :
-  exists c es, Forall (fun e => match e with EAppSend _ _ _ => False | _ => True end) es
-    /\ c04_check c (combine es (map obs_of (run_trace es (init_sess c)))) = [(7%nat, 402)].
-Proof. exact c04_402_drain_after_disconnect_refuted. Qed.
+
+(* regression: the trace that refuted the clause as formerly written (four buffered Heartbeats handled in one disconnecting
+   event: Heartbeats 3 and 5 each complete a chunk, ResendRequests [4,5] and [6,7] are created and written in the one event,
+   then OnLogout) satisfies the hypothesis and is now reported clean *)
+Example c04_draining_event_trace_now_clean :
+  Forall c04_no_app_rr c04x_drain_trace /\ c04_check (c04x_cfg 2) (c04x_run (c04x_cfg 2) c04x_drain_trace) = [].
+Proof. exact c04x_drain_trace_clean. Qed.
+Example c04_draining_event_writes_both_requests_before_logout :
+  match nth_error (c04x_run (c04x_cfg 2) c04x_drain_trace) 7 with
+  | Some (_, o) => (ob_st o, ob_tgt o, filter is_rr_cb (ob_cbs o), map (fun w => (o_type w, o_body w)) (ob_wire o),
+                    existsb (fun x => match x with CbOnLogout => true | _ => false end) (ob_cbs o))
+                   = (ShLatent, 6, [CbToAdmin T_RESENDREQ; CbToAdmin T_RESENDREQ],
+                      [(T_RESENDREQ, [(7, itoa 4); (16, itoa 5)]); (T_RESENDREQ, [(7, itoa 6); (16, itoa 7)])], true)
+  | None => False
+  end.
+Proof. exact c04x_drain_trace_event_7. Qed.
 
 (* ---------------------------------------------------------------------------------------------------------------------
    Clause 405: no kept application message is dropped. *)
